@@ -882,32 +882,23 @@ Proof.
 Qed.
 
 (* ---- the whole run ---- *)
-(* once a collection without prefix has been written, results are appended: a later collection with a
-   prefix would append to result files the run never created — excluded (mokapot's CLI passes either
-   no prefix at all or one prefix per file) *)
-Fixpoint prefixes_ok (ap : bool) (cls : list fs_coll) : bool :=
-  match cls with
-  | [] => true
-  | cl :: r => (negb ap || (fc_pfx cl =? 0)) && prefixes_ok (ap || (fc_pfx cl =? 0)) r
-  end.
-
-Lemma colls_ops_wf : forall g cls ap W, fg_glob g = false -> prefixes_ok ap cls = true ->
-  (ap = true -> results_in g 0 W) ->
-  cwf W (fs_colls_ops g ap cls) = true /\
-  (forall cl, In cl cls -> results_in g (fc_pfx cl) (cowned W (fs_colls_ops g ap cls))) /\
-  (forall n, is_result n = true -> fs_mem n W = true -> fs_mem n (cowned W (fs_colls_ops g ap cls)) = true) /\
-  (forall n, is_result n = false -> fs_mem n W = false -> fs_mem n (cowned W (fs_colls_ops g ap cls)) = false).
+Lemma colls_ops_wf : forall g cls seen W, fg_glob g = false -> fg_append g = false ->
+  (seen = true -> results_in g 0 W) ->
+  cwf W (fs_colls_ops g seen cls) = true /\
+  (forall cl, In cl cls -> results_in g (fc_pfx cl) (cowned W (fs_colls_ops g seen cls))) /\
+  (forall n, is_result n = true -> fs_mem n W = true -> fs_mem n (cowned W (fs_colls_ops g seen cls)) = true) /\
+  (forall n, is_result n = false -> fs_mem n W = false -> fs_mem n (cowned W (fs_colls_ops g seen cls)) = false).
 Proof.
-  intros g cls; induction cls as [|cl r IH]; intros ap W Hg Hp Hap; cbn [fs_colls_ops].
+  intros g cls; induction cls as [|cl r IH]; intros seen W Hg Ha Hseen; cbn [fs_colls_ops].
   - cbn. split; [reflexivity|]. split; [intros cl []|]. split; intros n _ H; exact H.
-  - cbn [prefixes_ok] in Hp. apply andb_true_iff in Hp; destruct Hp as [Hp1 Hp2].
-    assert (Hap' : ap = true -> results_in g (fc_pfx cl) W).
-    { intro E; subst ap. cbn in Hp1. apply Z.eqb_eq in Hp1. rewrite Hp1. apply Hap; reflexivity. }
-    destruct (coll_ops_wf g ap cl W Hg Hap') as [Wf1 [Res1 [Keep1 Out1]]].
-    set (W1 := cowned W (fs_coll_ops g ap cl)) in *.
-    destruct (IH (ap || (fc_pfx cl =? 0))%bool W1 Hg Hp2) as [Wf2 [Res2 [Keep2 Out2]]].
+  - rewrite Ha. cbn [orb].
+    assert (Hap' : (seen && (fc_pfx cl =? 0))%bool = true -> results_in g (fc_pfx cl) W).
+    { intro E. apply andb_true_iff in E. destruct E as [E1 E2]. apply Z.eqb_eq in E2. rewrite E2. apply Hseen; exact E1. }
+    destruct (coll_ops_wf g (seen && (fc_pfx cl =? 0))%bool cl W Hg Hap') as [Wf1 [Res1 [Keep1 Out1]]].
+    set (W1 := cowned W (fs_coll_ops g (seen && (fc_pfx cl =? 0))%bool cl)) in *.
+    destruct (IH (seen || (fc_pfx cl =? 0))%bool W1 Hg Ha) as [Wf2 [Res2 [Keep2 Out2]]].
     { intro E. apply orb_true_iff in E. destruct E as [E|E].
-      - intros lv Hlv. destruct (Hap E lv Hlv) as [A B]. split; [|intro Hd]; apply Keep1; auto.
+      - intros lv Hlv. destruct (Hseen E lv Hlv) as [A B]. split; [|intro Hd]; apply Keep1; auto.
       - apply Z.eqb_eq in E. rewrite <- E. exact Res1. }
     rewrite wf_ops_app, owned_after_app. fold W1. rewrite Wf1, Wf2. split; [reflexivity|]. split; [|split].
     + intros cl' [<-|Hin]; [|apply Res2; exact Hin].
@@ -916,20 +907,19 @@ Proof.
     + intros n Hn HW. apply Out2; [exact Hn|]. apply Out1; assumption.
 Qed.
 
-Definition run_ok (g : fs_cfg) : Prop :=
-  fg_glob g = false /\ fg_append g = false /\ prefixes_ok false (fg_colls g) = true.
+Definition run_ok (g : fs_cfg) : Prop := fg_glob g = false /\ fg_append g = false.
 
 Theorem run_ops_wf : forall g, run_ok g -> cwf [] (fs_run_ops g) = true.
 Proof.
-  intros g [Hg [Ha Hp]]. unfold fs_run_ops. rewrite Ha.
-  apply (colls_ops_wf g (fg_colls g) false [] Hg Hp). discriminate.
+  intros g [Hg Ha]. unfold fs_run_ops.
+  apply (colls_ops_wf g (fg_colls g) false [] Hg Ha). discriminate.
 Qed.
 
 Lemma result_names_owned : forall g, run_ok g ->
   forall n, In n (fs_result_names g) -> fs_mem n (cowned [] (fs_run_ops g)) = true.
 Proof.
-  intros g [Hg [Ha Hp]] n Hn. unfold fs_run_ops. rewrite Ha.
-  destruct (colls_ops_wf g (fg_colls g) false [] Hg Hp) as [_ [Res _]]; [discriminate|].
+  intros g [Hg Ha] n Hn. unfold fs_run_ops.
+  destruct (colls_ops_wf g (fg_colls g) false [] Hg Ha) as [_ [Res _]]; [discriminate|].
   unfold fs_result_names in Hn. apply in_flat_map in Hn. destruct Hn as [cl [Hcl Hn]].
   apply in_flat_map in Hn. destruct Hn as [lv [Hlv Hn]]. apply in_seq in Hlv.
   destruct (Res cl Hcl lv) as [A B]; [lia|].
@@ -940,8 +930,8 @@ Qed.
 Lemma only_results_owned : forall g, run_ok g ->
   forall n, is_result n = false -> fs_mem n (cowned [] (fs_run_ops g)) = false.
 Proof.
-  intros g [Hg [Ha Hp]] n Hn. unfold fs_run_ops. rewrite Ha.
-  destruct (colls_ops_wf g (fg_colls g) false [] Hg Hp) as [_ [_ [_ Out]]]; [discriminate|].
+  intros g [Hg Ha] n Hn. unfold fs_run_ops.
+  destruct (colls_ops_wf g (fg_colls g) false [] Hg Ha) as [_ [_ [_ Out]]]; [discriminate|].
   apply Out; [exact Hn | reflexivity].
 Qed.
 
@@ -1003,9 +993,10 @@ Qed.
 Theorem run_touches_own_files : forall g, fg_glob g = false ->
   forallb run_file (touched cfn (fs_run_ops g)) = true.
 Proof.
-  intros g Hg. unfold fs_run_ops. generalize (fg_append g) as ap.
-  induction (fg_colls g) as [|cl r IH]; intro ap; cbn [fs_colls_ops]; [reflexivity|].
+  intros g Hg. unfold fs_run_ops. generalize false as seen.
+  induction (fg_colls g) as [|cl r IH]; intro seen; cbn [fs_colls_ops]; [reflexivity|].
   rewrite touched_app, forallb_app, IH, andb_true_r.
+  set (ap := (fg_append g || (seen && (fc_pfx cl =? 0)))%bool).
   rewrite (coll_ops_shape g ap cl Hg), !touched_app, !forallb_app.
   repeat (apply andb_true_iff; split).
   - destruct ap; [reflexivity|]. rewrite inits_eq. apply touched_flat_map_forall.
